@@ -621,7 +621,9 @@ def create_tree_likelihood_general(trait: str, data_type: dict, taxa: Taxa, arg)
 
 
 def create_tree_likelihood(id_, taxa, alignment, arg):
-    rate_init = None
+    # a starting value given as a number is kept whatever else is initialised
+    # by regression (--rate_init 0.002 --heights_init regression)
+    rate_init = None if arg.rate_init == "regression" else arg.rate_init
     if arg.clock is not None and (
         arg.rate_init == "regression" or arg.heights_init == "regression"
     ):
@@ -633,8 +635,6 @@ def create_tree_likelihood(id_, taxa, alignment, arg):
                 rate_init = rate_init_r
             if arg.root_height_init is None:
                 arg.root_height_init = max(dates) - root_height_init
-    else:
-        rate_init = arg.rate_init
 
     if arg.model == "SRD06":
         branch_model = None
